@@ -2,8 +2,15 @@
   Helper lemmas for C03 (relational operators over worker chunks).
 -/
 import Csvq.Model.Rel
+import Csvq.Lemmas.Unicode
 namespace Csvq.Rel
 open Csvq
+
+/-! ## strings.EqualFold on names (Model/Unicode.lean) -/
+
+@[simp] theorem eqFold_self (a : String) : eqFold a a = true := Uni.runesFoldEq_refl _
+
+theorem eqFold_comm (a b : String) : eqFold a b = eqFold b a := Uni.runesFoldEq_comm _ _
 
 /-! ## generic list facts -/
 
